@@ -51,7 +51,7 @@ ReadOnlyOps == {"Clone", "CloneSeqBag", "Unalign", "Sample", "SampleSeqBag", "Su
                 "MaxCharStats", "Consensus", "CharStats", "CharStatsSite", "CharStatsSeq", "UniqueCharacters",
                 "Entropy", "EntropyAll", "NbVariableSites", "InformativeSites", "AvgAllelesPerSite", "Pssm", "CountDifferences",
                 "NumGapsUnique", "NumMutationsUnique", "NumMutRef", "ListMutRef", "CountProfile", "ProfileOnly", "SiteConservation", "AlphabetInfo",
-                "BuildBootstrap", "RandSubAlign", "Rarefy", "DetectAlphabet", "Identical", "Query", "New", "NewFromFasta", "CodonAlign", "LongestORFObj"}
+                "BuildBootstrap", "RandSubAlign", "Rarefy", "DetectAlphabet", "Identical", "Describe", "Query", "New", "NewFromFasta", "CodonAlign", "LongestORFObj"}
 
 \* `goalign extract`: one named region made of blocks [s, e) - in any order, possibly overlapping - taken in the order
 \* given and glued side by side, on the minus strand when asked (reverse complement of the glued region), translated
@@ -180,6 +180,9 @@ Step(h, op, recv, a) ==
     [] op = "Identical" -> Q(o, [v |-> /\ Len(o.rows) = Len(h[a.other].rows)
                                        /\ \A r \in 1..Len(o.rows) : HasName(h[a.other], o.rows[r].n)
                                              /\ RowOfName(h[a.other], o.rows[r].n).s = o.rows[r].s])
+    \* `goalign stats length | nseq | taxa`: what the container says about itself
+    [] op = "Describe" -> Q(o, [len |-> IF IsAlign(o) THEN o.len ELSE -2, nb |-> Len(o.rows),
+                                names |-> [i \in 1..Len(o.rows) |-> o.rows[i].n], lens |-> [i \in 1..Len(o.rows) |-> Len(o.rows[i].s)]])
     [] op = "Query" -> Q(o, NoRet)
     \* the ORF search as a producer of an object: which ORF comes back is C16's matter (Phase.tla); here the object only
     \* enters the heap, so that later steps show whether it shares anything with its source (not judged: j = FALSE)
@@ -201,6 +204,9 @@ RetOK(op, a, exp, obs) ==
     [] op \in {"CharStats", "CharStatsSite", "CharStatsSeq"} -> ObsMap(obs.m) = exp.m /\ Len(obs.m) = Cardinality(exp.m)
     [] op \in {"UniqueCharacters", "NbVariableSites", "DetectAlphabet", "Identical", "NumMutRef", "SiteConservation"} -> obs.v = exp.v
     [] op = "AlphabetInfo" -> obs.chars = exp.chars /\ obs.idx = exp.idx
+    [] op = "Describe" -> CASE a.what = "nseq" -> obs.nb = exp.nb
+                            [] a.what = "taxa" -> obs.names = exp.names
+                            [] OTHER -> IF exp.len = -2 THEN obs.names = exp.names /\ obs.lens = exp.lens ELSE obs.len = exp.len
     [] op = "InformativeSites" -> obs.v = exp.v
     [] op \in {"Entropy", "AvgAllelesPerSite"} -> FClose(FParse(obs.f), exp.f, FParse("1e-9"), FParse("1e-12"))
     \* (the command prints three decimals: half a unit of the last one, whoever is asked)
@@ -263,7 +269,7 @@ CliSplit(o, a) ==
 \* commands that print numbers (tables of counts, majority characters, ...): nothing is read back, the printed values
 \* are the return record of the query
 CliQueryOps == {"CharStats", "CharStatsSeq", "CountProfile", "ProfileOnly", "MaxCharStats", "AvgAllelesPerSite",
-                "NumMutRef", "ListMutRef", "NumGapsUnique", "NumMutationsUnique", "CountDifferences", "NbVariableSites", "EntropyAll", "Pssm"}
+                "NumMutRef", "ListMutRef", "NumGapsUnique", "NumMutationsUnique", "CountDifferences", "NbVariableSites", "EntropyAll", "Pssm", "Describe"}
 CliOf(op, o, R) ==
   IF R.err THEN Fail(o)
   ELSE IF op \in CliQueryOps THEN Res(FALSE, o, <<>>, R.ret, R.j)
